@@ -100,7 +100,7 @@ def r3(rr, repo):
             if e not in seeks:
                 rr.ob("the default position taken before the head file is looked at is the end of the log", e.args[0].replace('"', "'") == "('end', 0)", mod, e.node, witness=e.args[0], key='default-end')
         for e, path, mode in open_events(p):
-            rr.ob('__init__ opens only the head file, read-only', path in ('head', 'self.head') and not WRITE_MODES.search(mode), mod, e.node, witness=f'open({path}, {mode!r})', key='init-open')
+            rr.ob('__init__ opens only the head file, read-only', path in ('head', 'self.head', 'os.path.abspath(head)', 'os.path.realpath(head)') and not WRITE_MODES.search(mode), mod, e.node, witness=f'open({path}, {mode!r})', key='init-open')
         for s in seeks:
             arg = s.args[0]
             if 'json_loads' in arg or 'json.loads' in arg:
@@ -286,3 +286,41 @@ def r10(rr, repo):
 def r11(rr, repo):
     from .c13 import r14 as c13r14
     c13r14(rr, repo)
+
+
+@rule('C14.R12', "the position is saved to the file the next start reads it from: write_head() writes `self.head`; the constructor reads the restore position from the `head` it was given. The two are the "
+                 "same file only if what the constructor keeps in self.head is that very name (or one form of it that both sides use: made absolute once, for both) - a name that is re-based for the "
+                 "saves only is never found by the restart, which then begins at 'start' again and again; a relative name that is resolved anew on every save follows the process's working directory")
+def r12(rr, repo):
+    mod, init = repo.find(f'{RL}::RollLog.__init__')
+    param = 'head'
+    if param not in q.func_params(init):
+        raise Unresolved(f'{RL}: RollLog.__init__ has no parameter `head`')
+    st = [n for n in walk_scope(init) if isinstance(n, ast.Assign) and any(U(t) == 'self.head' for t in n.targets)]
+    rr.floor('stores to self.head in the constructor', len(st), 1, mod, init)
+    s = st[0]
+    rebinds_local = any(U(t) == param for t in s.targets)          # self.head = head = <form>: the restore below uses the same form
+    v = U(s.value)
+    ABS = (f'os.path.abspath({param})', f'None if {param} is None else os.path.abspath({param})', f'os.path.abspath({param}) if {param} is not None else None',
+           f'os.path.realpath({param})', f'None if {param} is None else os.path.realpath({param})')
+    reads = [c for c in q.calls_in(init) if U(c.func) in ('open', 'os.path.exists', 'os.path.isfile') and c.args and U(c.args[0]) in (param, 'self.head') and c.lineno > s.lineno]
+    rr.floor('reads of the head file in the constructor (exists / open)', len(reads), 2, mod, init)
+    read_terms = {U(c.args[0]) for c in reads}
+    if v == param:
+        ok, why = True, 'kept as given'            # same text on both sides (and resolved against the same directory only while the process stays where it is: see the absolute form)
+        rr.ob('self.head is the name the restart reads (kept as given)', True, mod, s, witness=U(s)[:100], key='head-saved-where-restored')
+        rr.ob('the head file name is made absolute once, so that a save after a change of the working directory goes to the file the restart reads', False, mod, s, witness=U(s)[:100], key='head-absolute')
+    elif v in ABS:
+        same = read_terms <= {param, 'self.head'}      # inside the constructor the name as given and its absolute form are the same file
+        rr.ob('self.head is the name the restart reads: the absolute form of the name the restore reads', same, mod, s, witness=f'{U(s)[:110]}; restore reads {sorted(read_terms)}', key='head-saved-where-restored')
+        rr.ob('the head file name is made absolute once, so that a save after a change of the working directory goes to the file the restart reads', True, mod, s, witness=v[:80], key='head-absolute')
+    else:
+        same = read_terms <= {'self.head'} or (rebinds_local and read_terms <= {param, 'self.head'})
+        if same:
+            rr.unresolved('self.head is computed in a way this rule does not know; restore and saves use the same term, whether that names one file for the life of the reader was not decided', mod, s, witness=U(s)[:120], key='head-saved-where-restored')
+        else:
+            rr.ob('self.head is the name the restart reads', False, mod, s, witness=f'saves go to {v[:90]}; the restore reads {sorted(read_terms)}', key='head-saved-where-restored')
+    _, wh = repo.find(f'{RL}::RollLog.write_head')
+    opens = [c for c in q.calls_in(wh) if U(c.func) == 'open']
+    src = [n for n in ast.walk(wh) if isinstance(n, ast.NamedExpr) and U(n.target) == 'head'] + [n for n in walk_scope(wh) if isinstance(n, ast.Assign) and U(n.targets[0]) == 'head']
+    rr.ob('write_head() writes the file named by self.head', bool(opens) and bool(src) and all(U(n.value) == 'self.head' for n in src), mod, opens[0] if opens else wh, witness=', '.join(U(n)[:40] for n in src), key='head-write-target')
